@@ -39,17 +39,12 @@ type Config struct {
 	ReceiptCap int      `json:"receipt_cap"`
 }
 
-type sched interface {
-	hwebsocket.Dispatcher
-	hwebsocket.Consumer
-}
-
 type Conn struct {
 	id   int
 	gen  int
 	rh   *hw.RealtimeHandler
 	vc   *hw.VerifConn
-	sc   sched
+	sc   *msched
 	life string // open | closing | closed
 	w    *World
 }
@@ -116,8 +111,8 @@ func NewWorld(cfg Config) *World {
 		out:      map[int][]M{},
 		ev:       newEvents(),
 	}
-	verifrt.SetInterceptor(w.ev)
-	w.gaugeBase = gaugeSum("session_count")
+	verifrt.SetInterceptorMask(w.ev, 1<<uint(verifrt.OpRUnlock))
+	w.gaugeBase = models.VerifSessionGauge()
 	return w
 }
 
@@ -189,7 +184,7 @@ func (w *World) open(id int) *Conn {
 		ReceiptChan:             w.receipt,
 		PrivateKey:              w.key,
 	}
-	c.sc = hwebsocket.NewScheduler()
+	c.sc = newSched()
 	c.vc = hw.VerifNewConn(c.rh, c.sc)
 	w.conns[id] = c
 	return c
@@ -233,7 +228,10 @@ func firstHagallFrame(stack string) string {
 func (w *World) Step(i int, st M) (M, error) {
 	kind := gets(st, "step")
 	cid := geti(st, "conn")
-	req, _ := st["req"].(map[string]any)
+	var req M
+	if r0, ok := st["req"].(map[string]any); ok {
+		req = norm(M(r0))
+	}
 	w.out = map[int][]M{}
 	rec := M{"k": "step", "i": i, "step": kind, "conn": cid}
 	if req != nil {
@@ -244,6 +242,10 @@ func (w *World) Step(i int, st M) (M, error) {
 	var res stepResult
 	switch kind {
 	case "Open":
+		if c := w.conn(cid); c.life != "closed" {
+			res = stepResult{ret: "busy"}
+			break
+		}
 		w.open(cid)
 		res = stepResult{ret: "ok"}
 	case "Req", "Recv":
@@ -252,17 +254,17 @@ func (w *World) Step(i int, st M) (M, error) {
 			res = stepResult{ret: "closed"}
 			break
 		}
-		msg, err := w.build(M(req))
+		msg, err := w.build(req)
 		if err != nil {
 			return nil, err
 		}
-		res = protect(func() error { return c.sc.Dispatch(context.Background(), msg) })
+		res = protect(func() error { return c.sc.DispatchReq(req, msg) })
 		if res.ret == "err" {
 			// receiver: dispatch error -> disconnect
 			c.life = "closing"
 			res.ret = "rerr"
 		}
-		if kind == "Req" && res.ret == "ok" && !parked(M(req)) {
+		if kind == "Req" && res.ret == "ok" && !parked(req) {
 			res = w.process(c, rec)
 		}
 	case "Proc":
@@ -285,6 +287,11 @@ func (w *World) Step(i int, st M) (M, error) {
 	default:
 		return nil, fmt.Errorf("unknown step kind %q", kind)
 	}
+	for _, c := range w.conns {
+		if c.sc.bad != "" {
+			res = stepResult{ret: "harness", note: c.sc.bad}
+		}
+	}
 	rec["ret"] = res.ret
 	if res.note != "" {
 		rec["note"] = res.note
@@ -300,17 +307,12 @@ func parked(req M) bool {
 }
 
 func (w *World) process(c *Conn, rec M) stepResult {
-	var msg hwebsocket.Msg
-	select {
-	case m, ok := <-c.sc.Messages():
-		if !ok {
-			return stepResult{ret: "empty"}
-		}
-		msg = m
-	default:
+	it, ok := c.sc.pop()
+	if !ok {
 		return stepResult{ret: "empty"}
 	}
-	rec["popped"] = w.projectRequest(msg)
+	msg := it.msg
+	rec["popped"] = it.req
 	res := protect(func() error { return c.vc.HandleMessage(context.Background(), msg, responder{c}) })
 	if res.ret != "ok" && c.life == "open" {
 		c.life = "closing"
@@ -444,7 +446,7 @@ func u32s(xs []uint32) []int {
 // projectState reads the authoritative state through the overlay accessors.
 func (w *World) projectState() M {
 	cur, free := w.store.VerifIDs()
-	post := M{"cur": int(cur), "free": u32s(free), "gauge": int(gaugeSum("session_count") - w.gaugeBase)}
+	post := M{"cur": int(cur), "free": u32s(free), "gauge": int(models.VerifSessionGauge() - w.gaugeBase)}
 
 	// who is who: participant object -> connection
 	connOf := map[*models.Participant]int{}
@@ -472,6 +474,8 @@ func (w *World) projectState() M {
 		sess = []M{}
 	}
 	post["sess"] = sess
+	post["ucur"] = len(w.uuids)
+	post["gcur"] = len(w.grids)
 
 	var cs []M
 	var ids []int
@@ -481,7 +485,8 @@ func (w *World) projectState() M {
 	sort.Ints(ids)
 	for _, id := range ids {
 		c := w.conns[id]
-		cm := M{"c": id, "life": c.life, "sid": 0, "pid": 0, "own": []int{}, "qlen": len(c.sc.Messages())}
+		q, pp, pc := c.sc.project()
+		cm := M{"c": id, "life": c.life, "sid": 0, "pid": 0, "own": []int{}, "q": q, "pp": pp, "pc": pc}
 		if s := c.rh.CurrentSession(); s != nil {
 			cm["sid"] = sidBack(w.store.GlobalSessionID(s.ID))
 			if reg, ok := regs[w.store.GlobalSessionID(s.ID)]; !ok || reg != s {
@@ -580,10 +585,9 @@ func (w *World) projectSession(s *models.Session, connOf map[*models.Participant
 		case *odal.State:
 			for _, a := range v.AssetInstances() {
 				assets = append(assets, assetBack(a))
-				if int(a.Id) > acur {
-					acur = int(a.Id)
-				}
 			}
+			ac, _ := v.VerifAssetIDs()
+			acur = int(ac)
 		case *dagaz.State:
 			if v.SpatialPartition != nil {
 				if _, ok := w.grids[v.SpatialPartition]; !ok {
@@ -598,6 +602,7 @@ func (w *World) projectSession(s *models.Session, connOf map[*models.Participant
 	sm["acts"] = sortAny(acts)
 	sm["assets"] = sortAny(assets)
 	sm["grid"] = grid
+	sm["acur"] = acur
 	sm["fh"] = s.VerifFrameHandlerCount()
 	ticking := false
 	if tk, ok := s.VerifFrameTicker().(*verifrt.Ticker); ok && tk != nil {
